@@ -359,6 +359,10 @@ func reqScripted() []reqCfg {
 		{Opts: []reqCtxOpt{d, d}, Steps: []string{"conn", "conn", "send c0", "send c1", "recv c0", "recv c1", "reply p1 prev c0", "reply p2 nohi c0", "reply p1 short c0", "reply p2 unissued c1", "reply p2 cur c1", "reply p1 dup c1", "reply p1 cur c0", "reply p2 dup c0", "recv c0"}},
 		// a new Send abandons the previous request while its Recv is pending
 		{Opts: []reqCtxOpt{d}, Steps: []string{"conn", "send c0", "recv c0", "send c0", "reply p1 prev c0", "recv c0", "reply p1 cur c0", "recv c0"}},
+		// the retry timer of a request that was re-sent because its pipe went away is left behind: when it fires after
+		// that request was answered it must not touch the request that is current by then (no early re-send)
+		{Opts: []reqCtxOpt{d}, Steps: []string{"conn", "conn", "send c0", "recv c0", "adv 1s", "drop p1", "reply p2 cur c0", "adv 1s", "send c0", "recv c0", "adv 2.999999s", "adv 1us", "adv 1.999999s", "adv 1us", "reply p2 cur c0"}},
+		{Opts: []reqCtxOpt{d}, Steps: []string{"conn", "conn", "send c0", "recv c0", "adv 2s", "drop p2", "drop p1", "conn", "reply p3 cur c0", "send c0", "adv 3s", "adv 1.999999s", "adv 1us", "recv c0", "reply p3 cur c0"}},
 		// retries disabled: loss cancels
 		{Opts: []reqCtxOpt{{Retry: 0}}, Steps: []string{"conn", "conn", "send c0", "recv c0", "drop p1", "drop p2", "conn", "adv 100s", "recv c0"}},
 		// slow peer: transmission not taken; retry goes to the other pipe; cancel; late release
